@@ -92,11 +92,11 @@ def shipped_alone(k1, k2, e, fin):
     for _ in range(sx.conc(k1)):
         xp.negative(x)
     a = xp.negative(x)
-    G.reset_names()  # process 2
-    y = G.stub_array("y", (4,), (2,))
+    G.reset_names()  # process 2: the same kind of program, so the same generated names (the leaf, too, is called "x" in both)
+    y = G.stub_array("x", (4,), (2,))
     for _ in range(sx.conc(k2)):
         xp.negative(y)
-    b = xp.negative(y)
+    b = xp.abs(y)
     f = sx.conc(fin)
     pb_ = arrays_to_plan(b)
     if f >= 1:
